@@ -138,6 +138,8 @@ class PDict:
         return out
 
     def items(self):
+        if self.base is not None:
+            return SymItems(self)
         return list(self._concrete_items())
 
     def keys(self):
@@ -264,3 +266,53 @@ def bytes_join(sep, parts):
                 raise Unsupported("join of a generic element with other parts")
             return p.__pyvc_join_all__()
     return SymBytes.of(sep).join(parts)
+
+
+class SymItems:
+    """`d.items()` of a dict with arbitrary (symbolic) content: only consumable by a comprehension model"""
+
+    def __init__(self, d):
+        self.d = d
+
+    def __iter__(self):
+        raise Unsupported("iteration over the items of a dict with symbolic initial content (needs a loop contract)")
+
+
+class CompDict:
+    """result of  {K(k, v): V(k, v) for k, v in d.items() if C(k, v)}  over a dict d with arbitrary content.
+    It is not looked into by the code under contract; the contract interrogates `entry(k)`: for an arbitrary source
+    key k, (present in d, condition, new key, new value) -- i.e. the comprehension's own code run on a symbolic entry."""
+
+    def __init__(self, src, f):
+        self.src, self.f = src, f
+        self.log = []               # writes performed on the result afterwards: ("set", key, value)
+
+    def __setitem__(self, k, v):
+        self.log.append(("set", k, v))
+
+    def entry(self, k):
+        v = self.src.base.get(k)
+        key, val, cond = self.f((k, v))
+        return key, val, cond, v
+
+    def _boom(self, *a, **kw):
+        raise Unsupported("the code looked into a dict built by a comprehension over symbolic content")
+
+    __getitem__ = __contains__ = __iter__ = __len__ = get = items = keys = values = update = pop = _boom
+
+    def __bool__(self):
+        raise Unsupported("truth value of a comprehension over symbolic content")
+
+
+def dictcomp(it, f):
+    """model of a dict comprehension with one generator (identical to the comprehension on ordinary iterables)"""
+    if isinstance(it, SymItems):
+        if it.d.log:
+            raise Unsupported("comprehension over a modified symbolic dict")
+        return CompDict(it.d, f)
+    out = {}
+    for x in it:
+        k, v, c = f(x)
+        if c:
+            out[k] = v
+    return out
